@@ -244,9 +244,16 @@ class MibCompiler(object):
                                 for mibTree in mibTrees]
 
                     for mibInfo, symbolTable, mibTree in fileMibs:
-                        symbolTableMap[mibInfo.name] = symbolTable
+                        # a module that has been taken already (from the
+                        # source that was asked for it first) is not
+                        # replaced by a copy that happens to share a file
+                        # with another module
+                        known = mibInfo.name in parsedMibs
 
-                        parsedMibs[mibInfo.name] = fileInfo, mibInfo, mibTree
+                        if not known:
+                            symbolTableMap[mibInfo.name] = symbolTable
+
+                            parsedMibs[mibInfo.name] = fileInfo, mibInfo, mibTree
 
                         # this module is available now: forget earlier
                         # failures to fetch it (under either name)
@@ -254,6 +261,11 @@ class MibCompiler(object):
                             if failedName in failedMibs:
                                 del failedMibs[failedName]
                                 processed.pop(failedName, None)
+
+                        if known:
+                            debug.logger & debug.flagCompiler and debug.logger(
+                                'ignoring another copy of %s found in %s' % (mibInfo.name, fileInfo.path))
+                            continue
 
                         mibsToParse.extend(mibInfo.imported)
 
